@@ -547,8 +547,12 @@ def truth(t):
         return bool(t[1])
     if t[0] in ('tuple', 'list', 'set') and not t[1]:
         return False
+    if t[0] in ('tuple', 'list') and any(isinstance(z, tuple) and z and z[0] != 'starred' for z in t[1]):
+        return True         # a written-out sequence with at least one element that is not an unpacking
     if t[0] == 'dict' and not t[1]:
         return False
+    if t[0] == 'dict' and any(k is not None for k, _ in t[1]):
+        return True
     if t[0] == 'new':
         return True
     return None
